@@ -80,6 +80,7 @@ func cmdRun(args []string) {
 	maxPaths := fs.Int("maxpaths", 0, "path cap")
 	tabulate := fs.String("tabulate", "", "f1;f2")
 	lockmon := fs.Bool("lockmon", false, "lock discipline monitor")
+	fulllib := fs.Bool("fulllib", false, "interpret the schema library")
 	fs.Parse(args)
 	ov, err := loadOverlay(*repo, *hdir)
 	if err != nil {
@@ -92,7 +93,7 @@ func cmdRun(args []string) {
 		os.Exit(2)
 	}
 	cfg := sym.Config{Pkg: *pkg, Harness: *fn, Bounds: map[string]int{}, Stubs: map[string]string{},
-		Workers: *workers, Verbose: *verbose, MapOrderAny: *maporder, Only: *only, MaxPaths: *maxPaths, LockMonitor: *lockmon}
+		Workers: *workers, Verbose: *verbose, MapOrderAny: *maporder, Only: *only, MaxPaths: *maxPaths, LockMonitor: *lockmon, FullSchemaLib: *fulllib}
 	for _, kv := range strings.Split(*bounds, ",") {
 		if kv == "" {
 			continue
